@@ -264,7 +264,7 @@ class ActiveTagMatcher(TagMatcher):
         if value_separator is None:
             value_separator = cls.value_separator
         any_tag_prefix = r"|".join(tag_prefixes)
-        expression = cls.tag_schema % (any_tag_prefix, value_separator)
+        expression = cls.tag_schema % (any_tag_prefix, re.escape(value_separator))
         return re.compile(expression)
 
     @classmethod
